@@ -115,26 +115,23 @@ class WBS:
             all_tasks_list.append(r)
             all_tasks_list += [t for t in r.all_children]
 
-        all_tasks = {task.id: task for task in all_tasks_list}
-
-        cloned_tasks = {task.id: task.clone() for task in all_tasks.values()}
+        # Clones are found by task object, not by task id: tasks outside WBS may have the same ids as tasks inside
+        cloned_tasks = {id(task): task.clone() for task in all_tasks_list}
 
         # Some tasks in WBS can have predecessors or successors outside WBS (i.e. from another project).
         # This predecessors/successors should not be copied.
-        for t in all_tasks.values():
-            for pr in t.predecessors:
-                if pr.wbs != self:
-                    cloned_tasks.setdefault(pr.id, pr)
-            for sc in t.successors:
-                if sc.wbs != self:
-                    cloned_tasks.setdefault(sc.id, sc)
+        def linked(task: Task) -> Optional[Task]:
+            if id(task) in cloned_tasks:
+                return cloned_tasks[id(task)]
+            if task.wbs != self:
+                return task
+            return None
 
-        for t in all_tasks.values():
-            c = cloned_tasks[t.id]
-            c.parent = cloned_tasks.get(all_tasks[t.id].parent.id) if all_tasks[t.id].parent else None
-            c.children = [cloned_tasks[ch.id] for ch in all_tasks[t.id].children]
-            c.predecessors = [cloned_tasks[ch.id] for ch in all_tasks[t.id].predecessors if ch.id in cloned_tasks]
-            c.successors = [cloned_tasks[ch.id] for ch in all_tasks[t.id].successors if ch.id in cloned_tasks]
+        for t in all_tasks_list:
+            c = cloned_tasks[id(t)]
+            c.children = [cloned_tasks[id(ch)] for ch in t.children]
+            c.predecessors = [linked(p) for p in t.predecessors if linked(p) is not None]
+            c.successors = [linked(s) for s in t.successors if linked(s) is not None]
 
         return cloned_tasks
 
@@ -143,7 +140,7 @@ class WBS:
         cloned_tasks = self.__clone_tasks(roots)
 
         cloned_project = WBS()
-        cloned_project.roots = [cloned_tasks[r.id] for r in roots]
+        cloned_project.roots = [cloned_tasks[id(r)] for r in roots]
 
         for k in self.__dict__.keys():
             if not k.startswith('_'):
